@@ -181,7 +181,9 @@ func createRequestFormParam(openapi *openapi3.T, param definitions.FuncParam, op
 	// Add the validation to the schema
 	BuildSchemaValidation(propertySchemaRef, param.Validator, param.TypeMeta.Name)
 	// Set the description on the property schema itself
-	if propertySchemaRef.Value != nil {
+	// A reference shares its Value with the component it points at: a description written through it would
+	// end up on the component itself (for every user of that type), not on this form field
+	if propertySchemaRef.Ref == "" && propertySchemaRef.Value != nil {
 		propertySchemaRef.Value.Description = param.Description
 	}
 	// Add the form parameter to the schema
